@@ -398,6 +398,42 @@ def _mk_fusion(rng, c, spec, with_var=False):
     return True
 
 
+def _mk_fusion_adj(rng, c, spec):
+    """Fusion with a pair of ADJACENT small variants (merged into one MNV by --max-adjacent-as-mnv) next to the breakpoint: in the
+    donor just upstream of it, or in the acceptor just downstream, so that junction-spanning peptides carry both."""
+    if not _mk_fusion(rng, c, spec, with_var=rng.random() < 0.5):
+        return False
+    fus = [r for r in c.recs() if isinstance(r, Fusion)][0]
+    d, a = fus.tx, fus.acc_tx
+    side = rng.choice(['donor', 'donor', 'acceptor'])
+    pair = []
+    if side == 'donor':
+        b = d.gene2tx(fus.dpos - 1)
+        if b is None or b < 12:
+            return False
+        t = b - rng.randint(1, 9)
+        tx = d
+    else:
+        k = a.gene2tx(fus.apos)
+        if k is None or k + 14 > a.tx_len():
+            return False
+        t = k + rng.randint(1, 9)
+        tx = a
+    gs = c.ref.gene_seq(tx.gene)
+    for tt in (t - 1, t):
+        g = tx.tx2gene(tt)
+        refb = gs[g]
+        pair.append(Small(tx.gene, tx, g, refb, rng.choice([x for x in 'ACGT' if x != refb])))
+    if pair[1].gstart != pair[0].gstart + 1:
+        return False          # the two positions are separated by an intron
+    smalls = {(r.tx.id, r.id): r for r in c.recs() if isinstance(r, Small)}
+    for v in pair:
+        smalls[(v.tx.id, v.id)] = v
+    vs = sorted(smalls.values(), key=lambda v: (v.gene.id, v.gstart, v.gend, v.alt))
+    c.files = [('v1.gvf', 'gSNP', vs)] + [f for f in c.files if f[1] == 'Fusion']
+    return True
+
+
 def _mk_fusion_var(rng, c, spec):
     return _mk_fusion(rng, c, spec, with_var=True)
 
